@@ -383,9 +383,60 @@ def _nonrec_rule(chk, prog, cg, comps):
             chk.ok(rule, "%s is in no recursion cycle" % nm)
 
 
+def _travstack_rule(chk, prog):
+    rule = "C19-TRAVSTACK"
+    chk.rule(rule, "the explicit traversal stack that replaces recursion in equals/compare is grown before the slot it is about to use is out of range")
+    from jv.linear import inequality
+    fn = prog.need_func("push_traversal_node", "value.c")
+    chk.analysed(fn)
+    TOP, CUR = "janet_vm.traversal_top", "janet_vm.traversal"
+
+    def transfer(st, n):
+        if n.k == "asg" and n.kids[0].k == "mem" and n.kids[0].field in ("traversal_top", "traversal", "traversal_base"):
+            return st | frozenset(["regrown"])
+        return st
+
+    def edge(st, blk, succ, cond, truth):
+        if cond is None:
+            return st
+        c = flow.compare_of(cond, truth)
+        if c is None or c[2] is None:
+            return st
+        ineq = inequality(c[0], c[1], c[2])
+        if ineq is None:
+            return st
+        coefs, const, strict = ineq
+        # CUR + k < TOP
+        if coefs.get(CUR) == 1 and coefs.get(TOP) == -1 and len(coefs) == 2:
+            k = const if strict else const - 1
+            return st | frozenset([("room", k)])
+        return st
+    IN, OUT, T = flow.forward_paths(fn, frozenset(), transfer, edge)
+    found = False
+    for b, S in IN.items():
+        for n in fn.blocks[b].elems:
+            if n.k == "asg" and n.kids[0].k == "un" and n.kids[0].op == "*":
+                tgt = strip_casts(n.kids[0].kids[0])
+                if tgt.k == "un" and tgt.op == "pre++" and is_mem(tgt.kids[0], "traversal", "JanetVM"):
+                    found = True
+                    chk.instance(rule)
+                    ok = all(("regrown" in s) or any(f[0] == "room" and f[1] >= 1 for f in s if isinstance(f, tuple)) for s in S)
+                    if ok:
+                        chk.ok(rule, "store to traversal[1] only after `traversal + 1 < traversal_top` or a regrow")
+                    else:
+                        chk.violation(rule, "value.c", fn.name, "store", n.loc,
+                                      "the node is stored at janet_vm.traversal + 1 on a path that only established a weaker bound "
+                                      "than traversal + 1 < traversal_top: when nesting depth equals the capacity one node is written "
+                                      "past the buffer")
+            S = T(S, n)
+    if not found:
+        raise AnalysisBroken("push_traversal_node: the store through ++janet_vm.traversal was not found")
+
+
 def run(chk):
     prog = Program.load("default")
     cg = CallGraph(prog)
     comps = _recursion_rule(chk, prog, cg)
     _deinit_arms(chk, prog, cg)
     _nonrec_rule(chk, prog, cg, comps)
+    _travstack_rule(chk, prog)
